@@ -1,7 +1,8 @@
 """Wrapper (guarded / guarded_opt / shared_guarded / shared_guarded_opt / ordered_guarded / atomic_guarded
 + handles.hpp): generator and implementation-side monitors (C01, C08; also used by C02, C15, C20).
 
-cfg = [flavour, mutexkind, enabled, init, throw_k...]; op encoding: see harness/wrapper_drv.cpp.
+cfg = [flavour, mutexkind, enabled, init, payloadkind, throw_k...]; op encoding: see harness/wrapper_drv.cpp.
+payloadkind 0 = instrumented vs::WPay (every access is a window), 1 = plain long (accesses invisible).
 The generator appends explicit Destroy ops for the handles a thread still has at the end of its program
 (the driver / model do not destroy leftovers on the client thread); a small share of cases leaves one alive.
 """
@@ -37,6 +38,10 @@ def is_opt(fl):
 
 def locking(cfg):
     return (not is_opt(cfg[0])) or cfg[2] != 0
+
+
+def plain(cfg):
+    return len(cfg) > 4 and cfg[4] != 0
 
 
 def available(cfg, code):
@@ -265,7 +270,10 @@ def _user_calls(cfg, progs):
     for p in progs:
         for op in p:
             if available(cfg, op[0]) and op[0] in WHOLE:
-                n += 2 if op[0] in (EXCHANGE, CAS) else 1
+                if plain(cfg):
+                    n += 1 if op[0] in (MODIFY, READ) else 0
+                else:
+                    n += 2 if op[0] in (EXCHANGE, CAS) else 1
     return n
 
 
@@ -288,7 +296,8 @@ def gen(rng, tier, spec):
     else:
         en = 1 if rng.chance(3, 4) else 0
     init = rng.range(0, 5)
-    cfg = [fl, mk, en, init]
+    pk = 1 if rng.chance(1, 5) else 0     # plain `long` payload in ~20 % of the cases
+    cfg = [fl, mk, en, init, pk]
     edge = rng.chance(1, 6)
     counter_only = rng.chance(2, 5) and pid not in ('C15', 'C20')
     nt = rng.weighted([(5, 2), (5, 3), (3, 4)])
@@ -385,7 +394,14 @@ def mon_lost_update(case, lines):
     writes = 0
     for o in _ops(case, lines):
         if o['op'][0] in (USE, MODIFY):
-            writes += sum(1 for (_, k, _, _) in o['events'] if k == K['WR_END'])
+            if plain(cfg):
+                # no window events: count the completed increments (an increment in flight cannot be pre-empted)
+                done = o['ret'] is not None and not o['caught'] and available(cfg, o['op'][0])
+                if o['op'][0] == USE:
+                    done = done and len(o['op']) > 2 and o['op'][2] == 1 and o['ret'] >= 0
+                writes += 1 if done else 0
+            else:
+                writes += sum(1 for (_, k, _, _) in o['events'] if k == K['WR_END'])
     if fin[0] != cfg[3] + writes:
         return 'final payload %d, expected %d + %d completed increments' % (fin[0], cfg[3], writes)
     return None
